@@ -323,6 +323,54 @@ def check_ord_overrides(chk, prog, sim):
                 chk.discharge(key)
 
 
+def check_two_quantity_api(chk, prog, sim):
+    """Every exported fn of the crate that takes two Quantity operands (whatever its name: an inherent `max`, a helper...) is a way
+    to combine or order two quantities, so it must panic iff the units differ - except multiplication / division (units legitimately
+    differ) and equality (a unit mismatch is simply 'not equal')."""
+    key = "h:two-quantity-api"
+    chk.obligation(key, "no exported fn combines or orders two quantities without requiring equal units")
+    ok = True
+    n = 0
+    ua, ub = sym_unit("a.unit"), sym_unit("b.unit")
+
+    def is_q(t):
+        return ty_str(t) == "Quantity" or (t.get("k") == "ref" and ty_str(t["ty"]) == "Quantity")
+    for f in prog.facts["fns"]:
+        if f.get("kind") not in ("Fn", "AssocFn") or "body" not in f or not f.get("exported", True) or f.get("unsafe"):
+            continue
+        ins = f.get("sig_inputs", [])
+        if len(ins) != 2 or not all(is_q(t) for t in ins):
+            continue
+        tr = (f.get("impl_trait") or "").split("::")[-1]
+        if tr in ("Mul", "Div", "MulAssign", "DivAssign", "PartialEq"):
+            continue
+        n += 1
+        st = S.State()
+        gargs = sim.identity_gargs(f)
+        a0 = sim.make_arg(st, "a", subst(ins[0], gargs))
+        b0 = sim.make_arg(st, "b", subst(ins[1], gargs))
+        for leaf in sim.run(f, gargs, [a0, b0], st):
+            chk.evaluated(1, nontrivial=(key, f["pretty"], repr(leaf.pc)))
+            if leaf.kind == "unsupported":
+                chk.violation("analysis-incomplete", key + ":" + f["pretty"], "cannot model %s: %s" % (f["pretty"], leaf.info.get("msg")))
+                ok = False
+                break
+            if leaf.kind != "return":
+                continue
+            same = forced_equal(sim, leaf.state, ua[0], ub[0]) and forced_equal(sim, leaf.state, ua[1], ub[1])
+            if not same:
+                chk.violation("C01.panic-iff", "two-quantity-api:" + f["pretty"], "%s (%s) takes two quantities and returns normally although their units may differ: quantities of different units are combined / ordered without a panic"
+                              % (f["pretty"], loc(f["span"])), fn=f["pretty"], file=loc(f["span"]))
+                ok = False
+                break
+    chk.extra["two_quantity_fns"] = n
+    if n < 5:
+        chk.violation("floor", "C01.two-quantity-fns", "expected >= 5 exported fns with two Quantity operands (Add, Sub, their assign forms, partial_cmp), found %d" % n)
+        ok = False
+    if ok:
+        chk.discharge(key)
+
+
 def check_piece_conversions(chk, prog, sim, rule, key, want, tag=""):
     """MotionProfilePiece -> PositionDerivative / Unit: defined exactly for the three moving pieces (shared with C06, which
     also evaluates it with dimension checking compiled out, where only the presence pattern remains)."""
@@ -531,6 +579,8 @@ def _run_config(chk, cfg, primary):
                               "mixed Quantity/Time/DimensionlessInteger operators convert the integer operand inexactly: " + v["what"], **v.get("detail", {}))
     check_partial_ord(chk, prog, sim)
     check_ord_overrides(chk, prog, sim)
+    if primary:
+        check_two_quantity_api(chk, prog, sim)
     check_eq_helpers(chk, prog, sim)
     check_conversions(chk, prog, sim)
     if primary:
